@@ -271,4 +271,54 @@ theorem C20_backup_least_free (fs : FS) (name : String) :
 
 example : findFree [(.backup "o" 1, "a"), (.backup "o" 2, "b"), (.backup "o" 4, "c")] "o" = 3 := by decide
 
+/-! ### histories of successful runs -/
+/-- one successful run keeps every user-visible content: what was stored at a non-temporary path before
+is still stored at a non-temporary path afterwards (the same one, or the backup name for the replaced file) -/
+theorem C20_success_keeps (fs fs' : FS) (out content : String) (h : SpecSuccess fs fs' out content)
+    (p : Path) (v : String) (hp : p.user = true) (hv : look fs p = some v) :
+    ∃ q : Path, q.user = true ∧ look fs' q = some v := by
+  obtain ⟨_, h2⟩ := h
+  cases hold : look fs (.file out) with
+  | none =>
+    rw [hold] at h2
+    by_cases hpo : p = .file out
+    · subst hpo; rw [hold] at hv; cases hv
+    · exact ⟨p, hp, (h2 p hp hpo).trans hv⟩
+  | some old =>
+    rw [hold] at h2
+    obtain ⟨k, _, hfree, _, hbk, hrest⟩ := h2
+    by_cases hpo : p = .file out
+    · subst hpo
+      rw [hold] at hv
+      cases hv
+      exact ⟨.backup out k, rfl, hbk⟩
+    · by_cases hpb : p = .backup out k
+      · subst hpb; rw [hfree] at hv; cases hv
+      · exact ⟨p, hp, (hrest p hp hpo hpb).trans hv⟩
+
+/-- any number of successful runs, to any output names, one after the other -/
+inductive SuccessHistory : FS → FS → Prop
+  | nil (fs : FS) : SuccessHistory fs fs
+  | snoc {fs mid fs' : FS} (out content : String) :
+      SuccessHistory fs mid → SpecSuccess mid fs' out content → SuccessHistory fs fs'
+
+/-- **C20_history_keeps** — "never clobber" over every history: after any sequence of successful runs
+(same or different output names, any contents) every content a user had in the directory at the start is
+still there under a non-temporary name. -/
+theorem C20_history_keeps {fs fs' : FS} (h : SuccessHistory fs fs') (p : Path) (v : String)
+    (hp : p.user = true) (hv : look fs p = some v) :
+    ∃ q : Path, q.user = true ∧ look fs' q = some v := by
+  induction h with
+  | nil => exact ⟨p, hp, hv⟩
+  | snoc out content _ hs ih =>
+    obtain ⟨q, hq, hqv⟩ := ih
+    exact C20_success_keeps _ _ out content hs q v hq hqv
+
+/-- non-vacuity: two successive writes of "o" over an existing file: both older contents are kept -/
+example : SuccessHistory [(.file "o", "v0")]
+    [(.file "o", "v2"), (.backup "o" 2, "v1"), (.backup "o" 1, "v0")] := by
+  refine .snoc "o" "v2" (.snoc "o" "v1" (.nil _) (fs' := [(.file "o", "v1"), (.backup "o" 1, "v0")]) ?_) ?_
+  · exact (C20_oracle_success _ _ _ _).mp (by decide)
+  · exact (C20_oracle_success _ _ _ _).mp (by decide)
+
 end PolyplyVerif.C20
